@@ -1,0 +1,5 @@
+//go:build !verif
+
+package mavl
+
+func verifDelay(string) {}
